@@ -848,6 +848,7 @@ def gen_c19(seed, tier):
     weights = [(k, w) for k, w in weights if k in enabled]
     evs = []
     mk = 0
+    last_set = {}
     for _ in range(n):
         k = r.weighted(weights)
         s = 0 if r.chance(focus_subj) else r.randrange(3)
@@ -861,6 +862,11 @@ def gen_c19(seed, tier):
             e.update({"s": s, "src": src, "off": r.pick([-3600, -1, 0, 1, 3600, -2, 2, 5, 3600, 600]), "ava": ava,
                       "marker": "m%d" % mk, "form": r.pick(["int", "int", "int", "struct", "struct", "zero"]),
                       "with_name_id": r.chance(0.5)})
+            prev = last_set.get((s, src))
+            if prev is not None and r.chance(0.3):
+                # the same statement again with another expiry (a renewed / shortened session)
+                e["ava"], e["marker"], e["with_name_id"] = prev["ava"], prev["marker"], prev["with_name_id"]
+            last_set[(s, src)] = e
             if k == "add_person" and e["form"] == "struct":
                 e["form"] = "int"
         elif k in ("get", "active", "reset", "entityid"):
